@@ -14,8 +14,8 @@ from .c07 import ref_detect
 
 PID = "C09"
 RULE = (
-    "histories of add / refresh / stop / remove-all-for-address / remove-all / re-add over 2 addresses x 3 keys with TTLs "
-    "from {1,2,3,0xFFFFFE,inf}, executed (a) on TimedStore directly, (b) as offer / stop-offer / reboot-revealing datagrams "
+    "histories of add / refresh / stop / remove-all-for-address / remove-all / re-add / add refused by the 'new' callback over 2 addresses x 3 keys with TTLs "
+    "from {1,2,3,0xFFFFFE,inf}, objects constructed inside the running loop or before it runs, executed (a) on TimedStore directly, (b) as offer / stop-offer / reboot-revealing datagrams "
     "and connection loss through ServiceDiscover, (c) as Subscribe / StopSubscribe datagrams and service stop/start through "
     "ServiceInstance; steps timed by delays from {0.25,0.5,1,2,3,1e6,2e7} or relative to the pending expiry timer with "
     "offsets -4RES/-RES/4/+RES/4/+4RES/halfway; every history is run past 0xFFFFFF virtual seconds. exhaustive: all "
@@ -79,11 +79,15 @@ def _step(draw):
     s = {"op": op, "when": draw(when_st), "a": draw(st.integers(0, 1)), "k": draw(st.integers(0, 2))}
     if op == "add":
         s["ttl"] = draw(st.sampled_from([1, 1, 2, 3, 0xFFFFFE, INF]))
+        if draw(st.integers(0, 5)) == 0:
+            s["reject"] = True   # if this add creates the record, the 'new' callback refuses it (NakSubscription)
     return s
 
 
 def strategy(tier):
-    return st.builds(lambda m, steps: {"mode": m, "steps": steps}, st.sampled_from(MODES), st.lists(_step(), min_size=1, max_size=12))
+    # outside: the objects are constructed before the loop runs (another loop is the thread's current one then)
+    return st.builds(lambda m, steps, o: {"mode": m, "steps": steps, "outside": o}, st.sampled_from(MODES), st.lists(_step(), min_size=1, max_size=12),
+                     st.sampled_from([False, False, True]))
 
 
 def fixed_cases(tier):
@@ -99,6 +103,8 @@ def fixed_cases(tier):
             {"mode": mode, "steps": [A(0xFFFFFE), A(INF, ["d", 1e6])]},
             {"mode": mode, "steps": [A(INF)]},                               # an infinite entry must survive 0xFFFFFF s
             {"mode": mode, "steps": [A(1), A(1, ["t", 0, "-4"]), A(1, ["t", 0, "-q"]), A(1, ["t", 0, "+q"])]},
+            {"mode": mode, "steps": [dict(A(1), reject=True), A(3, ["d", 0.5])]},     # a refused add leaves no timer behind
+            {"mode": mode, "outside": True, "steps": [A(1), A(2, ["d", 0.5])]},
         ]
     return out
 
@@ -110,20 +116,35 @@ class _Backend:
     def barrier(self, step):
         return False
 
+    def start(self):
+        pass
+
 
 class StoreBackend(_Backend):
     def __init__(self, sim, log):
         super().__init__(sim, log)
+        self.reject = False
         self.store = sd.TimedStore(logging.getLogger("someip.verif"))
 
     def _new(self, key, addr):
+        if self.reject:
+            self.log.append((self.sim.now, "rejected", (addr, key)))
+            raise sd.NakSubscription
         self.log.append((self.sim.now, "new", (addr, key)))
 
     def _exp(self, key, addr):
         self.log.append((self.sim.now, "expired", (addr, key)))
 
-    def add(self, a, k, ttl):
-        self.store.refresh(ttl, ADDRS[a], k, self._new, self._exp)
+    def add(self, a, k, ttl, reject=False):
+        self.reject = reject
+        try:
+            self.store.refresh(ttl, ADDRS[a], k, self._new, self._exp)
+        except sd.NakSubscription:
+            # the refusal of the 'new' callback propagates to the caller of refresh(), as ServiceInstance relies on
+            if not reject:
+                raise
+        finally:
+            self.reject = False
         return False
 
     def stop(self, a, k):
@@ -171,8 +192,10 @@ class DiscoverBackend(_SDBackend):
         super().__init__(sim, log)
         self.prot = make_sd(sim)
         self.raw = []
-        self.prot.discovery.watch_all_services(ClientRec(sim, self.raw, "L"))
         self.pos = 0
+
+    def start(self):
+        self.prot.discovery.watch_all_services(ClientRec(self.sim, self.raw, "L"))
 
     def sync(self):
         for t, _, kind, key, src in self.raw[self.pos:]:
@@ -183,7 +206,7 @@ class DiscoverBackend(_SDBackend):
         s = SVC[k]
         return {"t": t, "svc": s[0], "inst": s[1], "major": s[2], "minor": s[3], "ttl": ttl}
 
-    def add(self, a, k, ttl):
+    def add(self, a, k, ttl, reject=False):
         return self._send(a, [self._e(k, "offer", ttl)])
 
     def stop(self, a, k):
@@ -209,20 +232,27 @@ class InstanceBackend(_SDBackend):
         tm = timings(CYCLIC_OFFER_DELAY=0, ANNOUNCE_TTL=INF, SEND_COLLECTION_TIMEOUT=0)
         self.prot = make_sd(sim, tm)
         self.raw = []
-        self.inst = sd.ServiceInstance(cfg.Service(0x3000, 1, 1, 0, eventgroups=frozenset({1, 2, 3})), ServerRec(sim, self.raw, "S"), self.prot.announcer, tm)
+        self.reject = False
+        self.inst = sd.ServiceInstance(cfg.Service(0x3000, 1, 1, 0, eventgroups=frozenset({1, 2, 3})),
+                                       ServerRec(sim, self.raw, "S", lambda sub, src: not self.reject), self.prot.announcer, tm)
+        self.pos = 0
+
+    def start(self):
         self.prot.announcer.announce_service(self.inst)
         self.prot.announcer.start()
-        self.pos = 0
 
     def sync(self):
         for t, _, kind, key, src, ttl in self.raw[self.pos:]:
-            self.log.append((t, "new" if kind == "subscribed" else "expired", (src, key[3])))
+            self.log.append((t, {"subscribed": "new", "rejected": "rejected"}.get(kind, "expired"), (src, key[3])))
         self.pos = len(self.raw)
 
     def _e(self, k, t, ttl=0):
         return {"t": t, "svc": 0x3000, "inst": 1, "major": 1, "eg": k + 1, "ttl": ttl, "eps": [["10.0.0.9", 4000, 17]]}
 
-    def add(self, a, k, ttl):
+    def add(self, a, k, ttl, reject=False):
+        # the datagram's entries are handled in a later loop iteration: the decision stays in force until the next step
+        # (a refusing add is a group of its own, see barrier)
+        self.reject = reject
         return self._send(a, [self._e(k, "sub", ttl)])
 
     def stop(self, a, k):
@@ -241,7 +271,7 @@ class InstanceBackend(_SDBackend):
 
     def barrier(self, step):
         # a lifecycle call sharing an iteration with (deferred) datagram handling is order-ambiguous: own group
-        return step["op"] == "rmall"
+        return step["op"] == "rmall" or (step["op"] == "add" and bool(step.get("reject")))
 
 
 BACKENDS = {"store": StoreBackend, "discover": DiscoverBackend, "instance": InstanceBackend}
@@ -253,9 +283,14 @@ def run_case(case):
     log = []
     feats = {"ttlclass": False, "near": False, "readd": False}
     with Sim() as sim:
-        be = BACKENDS[mode](sim, log)
+        if case.get("outside"):
+            with sim.outside():
+                be = BACKENDS[mode](sim, log)
+        else:
+            be = BACKENDS[mode](sim, log)
+        be.start()
         sim.advance(0.05)
-        model = TTLModel("C09", {"new": True}, optional_new=False)
+        model = TTLModel("C09", {"new": True, "rejected": False}, optional_new=False)
         live = model.live
         lastttl = {}
         removed = set()
@@ -277,6 +312,7 @@ def run_case(case):
         def execute(i, s):
             op, now = s["op"], sim.now
             a, k = s.get("a", 0) % 2, s.get("k", 0) % 3
+            be.reject = False
             if op == "add":
                 ttl = s.get("ttl", 1)
                 ttl = ttl if ttl in (1, 2, 3, 0xFFFFFE, INF) else 1
@@ -286,7 +322,7 @@ def run_case(case):
                 if p in removed:
                     feats["readd"] = True
                 lastttl[p] = ttl
-                if be.add(a, k, ttl):
+                if be.add(a, k, ttl, bool(s.get("reject")) and mode != "discover"):
                     events.append(("end", lambda q, _a=ADDRS[a]: q[0] == _a, "reboot of the sender"))
                 events.append(("add", p, None if ttl == INF else now + ttl, now))
             elif op == "stop":
